@@ -663,3 +663,600 @@ class Interp:
             except Exception as ex:
                 raise EvalUnsupported(f"builtin error {ex}")
         raise EvalUnsupported(f"call {name or src(e.func)}")
+
+
+# ---- normalised view of a class: private helpers inlined, pure temporaries substituted ----------------------
+#
+# Rules are written against one canonical shape of each anchored method.  Maintainers' clean-ups move code
+# into private helpers and name intermediate values; ``norm_class`` undoes both on a *copy* of the class so
+# that every rule judges the same meaning regardless of those spellings:
+#   * a private, non-generator method that is not itself an anchor (``keep``) and is only ever *called* as
+#     ``self._h(args)`` from statement positions is inlined at its call sites (continuation-passing: the
+#     calling statement is placed at each ``return`` of the helper, guard clauses become if/else);
+#   * a local that is assigned once and only names a value (``x = E``) is replaced by E where that provably
+#     cannot change what is computed (E pure and nothing E reads is written / no call runs in between; or E
+#     arbitrary but used exactly once by the directly following statement, temporaries in evaluation order).
+
+import copy as _copy
+
+_PURE_CALLS = {"isinstance", "len", "getattr"}
+
+
+def clone(n):
+    if isinstance(n, ast.AST):
+        new = n.__class__()
+        for f in n._fields:
+            if hasattr(n, f):
+                setattr(new, f, clone(getattr(n, f)))
+        for a in n._attributes:
+            if hasattr(n, a):
+                setattr(new, a, getattr(n, a))
+        return new
+    if isinstance(n, list):
+        return [clone(x) for x in n]
+    return n
+
+
+def set_parents(root: ast.AST, parent=None):
+    root._parent = parent  # type: ignore[attr-defined]
+    for p in ast.walk(root):
+        for ch in ast.iter_child_nodes(p):
+            ch._parent = p  # type: ignore[attr-defined]
+
+
+class _NotInlinable(Exception):
+    pass
+
+
+def _own_nodes(func):
+    """Nodes of a function body not inside nested scopes (the nested def/lambda node itself included)."""
+    for st in func.body:
+        yield from walk_local_stmt_(st)
+
+
+def walk_local_stmt_(st):
+    stack = [st]
+    while stack:
+        n = stack.pop()
+        yield n
+        if isinstance(n, FUNC_TYPES + (ast.ClassDef,)) and n is not st:
+            continue
+        if isinstance(n, FUNC_TYPES + (ast.ClassDef,)) and n is st:
+            continue
+        stack.extend(reversed(list(ast.iter_child_nodes(n))))
+
+
+def _is_generator(func) -> bool:
+    return any(isinstance(n, (ast.Yield, ast.YieldFrom)) for n in _own_nodes(func))
+
+
+def _contains_return(st) -> bool:
+    return any(isinstance(n, ast.Return) for n in walk_local_stmt_(st)) if not isinstance(st, ast.Return) else True
+
+
+def _always_exits(block) -> bool:
+    """Every path through the block ends in return / raise (conservative)."""
+    for st in block:
+        if isinstance(st, (ast.Return, ast.Raise)):
+            return True
+        if isinstance(st, ast.If) and st.orelse and _always_exits(st.body) and _always_exits(st.orelse):
+            return True
+    return False
+
+
+def _seq(stmts, k):
+    """Return-free version of a statement list; ``k(E)`` yields (fresh) continuation statements for
+    ``return E`` (E may be None) and for falling off the end."""
+    out = []
+    for i, st in enumerate(stmts):
+        rest = stmts[i + 1:]
+        if isinstance(st, ast.Return):
+            return out + k(st.value)
+        if isinstance(st, ast.Raise):
+            return out + [st]
+        if isinstance(st, ast.If) and _contains_return(st):
+            b_exit, o_exit = _always_exits(st.body), _always_exits(st.orelse)
+            body = _seq(st.body + ([] if b_exit else clone(rest)), k)
+            orelse = _seq(st.orelse + ([] if o_exit else clone(rest)), k)
+            new = ast.If(test=st.test, body=body or [ast.Pass()], orelse=orelse)
+            ast.copy_location(new, st)
+            return out + [new]
+        if _contains_return(st):
+            raise _NotInlinable("return inside loop/try/with")
+        out.append(st)
+    return out + k(None)
+
+
+class _Subst(ast.NodeTransformer):
+    def __init__(self, mapping):
+        self.mapping = mapping
+
+    def visit_Name(self, node):
+        if node.id in self.mapping and isinstance(node.ctx, ast.Load):
+            return clone(self.mapping[node.id])
+        return node
+
+
+class _ReplaceNode(ast.NodeTransformer):
+    def __init__(self, target, repl):
+        self.target, self.repl = target, repl
+
+    def generic_visit(self, node):
+        if node is self.target:
+            return self.repl
+        return super().generic_visit(node)
+
+    def visit(self, node):
+        if node is self.target:
+            return self.repl
+        return super().visit(node)
+
+
+def _simple_arg(e) -> bool:
+    if isinstance(e, (ast.Name, ast.Constant)):
+        return True
+    if isinstance(e, ast.Attribute):
+        return _simple_arg(e.value)
+    return False
+
+
+def _assigned_names(func) -> Set[str]:
+    out = set()
+    for n in ast.walk(func):
+        if isinstance(n, ast.Name) and isinstance(n.ctx, (ast.Store, ast.Del)):
+            out.add(n.id)
+        elif isinstance(n, (ast.FunctionDef, ast.AsyncFunctionDef)) and n is not func:
+            out.add(n.name)
+            out.update(a.arg for a in n.args.args)
+        elif isinstance(n, ast.Lambda):
+            out.update(a.arg for a in n.args.args)
+        elif isinstance(n, ast.ExceptHandler) and n.name:
+            out.add(n.name)
+    return out
+
+
+def _helper_call(e, helpers) -> Optional[str]:
+    if isinstance(e, ast.Call) and isinstance(e.func, ast.Attribute) and isinstance(e.func.value, ast.Name) and e.func.value.id == "self" \
+            and e.func.attr in helpers and not e.keywords and not any(isinstance(a, ast.Starred) for a in e.args):
+        return e.func.attr
+    return None
+
+
+def _inline_stmt(st, helpers, caller_names, counter):
+    """If the simple statement ``st`` contains exactly one inlinable helper call in a position that is
+    evaluated before any other call of the statement, return the replacement statement list, else None."""
+    if not isinstance(st, (ast.Expr, ast.Assign, ast.AnnAssign, ast.AugAssign, ast.Return)):
+        return None
+    calls = [n for n in walk_local_stmt_(st) if _helper_call(n, helpers)]
+    calls = [c for c in calls if not any(isinstance(p, FUNC_TYPES) for p in _ancestors_within(st, c))]
+    if len(calls) != 1:
+        return None
+    K = calls[0]
+    h = helpers[K.func.attr]
+    anc = _ancestors_within(st, K)
+    for n in walk_local_stmt_(st):
+        if isinstance(n, ast.Call) and n is not K and n not in anc and not any(x is n for x in ast.walk(K)):
+            # another call in the statement that is not an ancestor of K: only allowed in argument positions of
+            # ancestors (evaluated after K)
+            ok = False
+            for a in anc:
+                if isinstance(a, ast.Call) and any(any(y is n for y in ast.walk(arg)) for arg in list(a.args) + [kw.value for kw in a.keywords]):
+                    ok = True
+            if isinstance(st, (ast.Assign, ast.AnnAssign)) and any(y is n for t in (st.targets if isinstance(st, ast.Assign) else [st.target]) for y in ast.walk(t)):
+                ok = True
+            if not ok:
+                return None
+    params = [a.arg for a in h.args.args]
+    if h.args.vararg or h.args.kwarg or h.args.kwonlyargs or h.args.posonlyargs or h.args.defaults or not params or len(K.args) != len(params) - 1:
+        return None
+    params = params[1:]
+    hbody = clone([s for s in h.body if not (isinstance(s, ast.Expr) and isinstance(s.value, ast.Constant) and isinstance(s.value.value, str))])
+    tmp = ast.Module(body=hbody, type_ignores=[])
+    assigned = _assigned_names(tmp)
+    # nested scopes of the helper must not shadow a parameter
+    mapping, prologue = {}, []
+    for p, a in zip(params, K.args):
+        if _simple_arg(a) and p not in {n.id for n in ast.walk(tmp) if isinstance(n, ast.Name) and isinstance(n.ctx, (ast.Store, ast.Del))}:
+            mapping[p] = a
+        else:
+            prologue.append(ast.copy_location(ast.Assign(targets=[ast.Name(id=p, ctx=ast.Store())], value=clone(a), lineno=st.lineno), st))
+    for n in ast.walk(tmp):
+        if isinstance(n, (ast.FunctionDef, ast.AsyncFunctionDef, ast.Lambda)) and any(a.arg in mapping for a in n.args.args):
+            return None
+    # locals of the helper that collide with names of the caller are renamed
+    collide = {n for n in assigned if n in caller_names and n not in mapping}
+    if collide:
+        counter[0] += 1
+        ren = {n: f"{n}_{K.func.attr.strip('_')}{counter[0]}" for n in collide}
+        for n in ast.walk(tmp):
+            if isinstance(n, ast.Name) and n.id in ren:
+                n.id = ren[n.id]
+            elif isinstance(n, (ast.FunctionDef, ast.AsyncFunctionDef)) and n.name in ren:
+                n.name = ren[n.name]
+    tmp = _Subst(mapping).visit(tmp)
+
+    def k(E):
+        if isinstance(st, ast.Expr) and st.value is K:
+            if E is not None and any(isinstance(x, ast.Call) for x in ast.walk(E)):
+                return [ast.copy_location(ast.Expr(value=E), st)]
+            return []
+        s2 = clone_except(st, K, E if E is not None else ast.Constant(value=None))
+        return [s2]
+    try:
+        body = _seq(tmp.body, k)
+    except _NotInlinable:
+        return None
+    out = prologue + body
+    for s in out:
+        ast.fix_missing_locations(s) if hasattr(s, "lineno") else None
+    return out or [ast.copy_location(ast.Pass(), st)]
+
+
+def clone_except(root, target, repl):
+    """Clone ``root`` replacing the sub-node ``target`` (by identity) with ``repl``."""
+    def rec(n):
+        if n is target:
+            return clone(repl)
+        if isinstance(n, ast.AST):
+            new = n.__class__()
+            for f in n._fields:
+                if hasattr(n, f):
+                    setattr(new, f, rec(getattr(n, f)))
+            for a in n._attributes:
+                if hasattr(n, a):
+                    setattr(new, a, getattr(n, a))
+            return new
+        if isinstance(n, list):
+            return [rec(x) for x in n]
+        return n
+    return rec(root)
+
+
+def _ancestors_within(root, node):
+    """Ancestors of ``node`` inside ``root`` (root included), innermost first; [] if not found."""
+    path = []
+
+    def rec(n, trail):
+        if n is node:
+            path.extend(reversed(trail))
+            return True
+        for ch in ast.iter_child_nodes(n):
+            if rec(ch, trail + [n]):
+                return True
+        return False
+    rec(root, [])
+    return path
+
+
+def _inline_block(stmts, helpers, caller_names, counter):
+    changed = False
+    out = []
+    for st in stmts:
+        rep = _inline_stmt(st, helpers, caller_names, counter) if helpers else None
+        if rep is not None:
+            out.extend(rep)
+            changed = True
+            continue
+        for fld in ("body", "orelse", "finalbody"):
+            blk = getattr(st, fld, None)
+            if isinstance(blk, list) and blk and isinstance(blk[0], ast.stmt):
+                nb, ch = _inline_block(blk, helpers, caller_names, counter)
+                if ch:
+                    setattr(st, fld, nb)
+                    changed = True
+        for hd in getattr(st, "handlers", []) or []:
+            nb, ch = _inline_block(hd.body, helpers, caller_names, counter)
+            if ch:
+                hd.body = nb
+                changed = True
+        out.append(st)
+    return out, changed
+
+
+# ---- temporaries -----------------------------------------------------------------------------------------------
+
+def _is_pure(e, bound=()) -> bool:
+    for n in ast.walk(e):
+        if isinstance(n, ast.Call):
+            if dotted(n.func) not in _PURE_CALLS or dotted(n.func) in bound:
+                return False
+        elif isinstance(n, (ast.Lambda, ast.Await, ast.Yield, ast.YieldFrom, ast.NamedExpr, ast.ListComp, ast.SetComp, ast.DictComp, ast.GeneratorExp,
+                            ast.List, ast.Dict, ast.Set)):
+            return False
+    return True
+
+
+def _reads(e):
+    attrs, names = set(), set()
+    for n in ast.walk(e):
+        if isinstance(n, ast.Attribute):
+            attrs.add(n.attr)
+        elif isinstance(n, ast.Name):
+            names.add(n.id)
+    return attrs, names
+
+
+def _header_exprs(st):
+    if isinstance(st, (ast.If, ast.While)):
+        return [st.test]
+    if isinstance(st, (ast.For, ast.AsyncFor)):
+        return [st.iter]
+    if isinstance(st, (ast.With, ast.AsyncWith)):
+        return [i.context_expr for i in st.items]
+    if isinstance(st, (ast.Expr, ast.Assign, ast.AnnAssign, ast.AugAssign, ast.Return, ast.Raise, ast.Assert, ast.Delete)):
+        return [st]
+    return []
+
+
+def _subst_temps(func) -> bool:
+    """One round of temporary elimination on ``func`` (own statements only); True when something changed."""
+    own = list(_own_nodes(func))
+    params = {a.arg for a in func.args.args} | ({func.args.vararg.arg} if func.args.vararg else set()) | ({func.args.kwarg.arg} if func.args.kwarg else set())
+    stores: Dict[str, int] = {}
+    for n in own:
+        if isinstance(n, ast.Name) and isinstance(n.ctx, (ast.Store, ast.Del)):
+            stores[n.id] = stores.get(n.id, 0) + 1
+        elif isinstance(n, (ast.FunctionDef, ast.AsyncFunctionDef)):
+            stores[n.name] = stores.get(n.name, 0) + 2
+        elif isinstance(n, ast.ExceptHandler) and n.name:
+            stores[n.name] = stores.get(n.name, 0) + 2
+        elif isinstance(n, (ast.Global, ast.Nonlocal)):
+            for nm in n.names:
+                stores[nm] = stores.get(nm, 0) + 2
+    nested_uses = set()
+    for n in own:
+        if isinstance(n, FUNC_TYPES):
+            nested_uses.update(x.id for x in ast.walk(n) if isinstance(x, ast.Name))
+    order = {id(n): i for i, n in enumerate(own)}
+
+    def defs_in(block):
+        for i, st in enumerate(block):
+            tgt = val = None
+            if isinstance(st, ast.Assign) and len(st.targets) == 1 and isinstance(st.targets[0], ast.Name):
+                tgt, val = st.targets[0].id, st.value
+            elif isinstance(st, ast.AnnAssign) and isinstance(st.target, ast.Name) and st.value is not None:
+                tgt, val = st.target.id, st.value
+            if tgt and stores.get(tgt) == 1 and tgt not in params and tgt not in nested_uses:
+                yield i, st, tgt, val
+
+    def blocks(node):
+        for fld in ("body", "orelse", "finalbody"):
+            blk = getattr(node, fld, None)
+            if isinstance(blk, list) and blk and isinstance(blk[0], ast.stmt):
+                yield blk
+                for st in blk:
+                    if not isinstance(st, FUNC_TYPES + (ast.ClassDef,)):
+                        yield from blocks(st)
+        for hd in getattr(node, "handlers", []) or []:
+            yield hd.body
+            for st in hd.body:
+                if not isinstance(st, FUNC_TYPES + (ast.ClassDef,)):
+                    yield from blocks(st)
+
+    for blk in blocks(func):
+        for i, st, tgt, val in list(defs_in(blk)):
+            uses = [n for n in own if isinstance(n, ast.Name) and n.id == tgt and isinstance(n.ctx, ast.Load)]
+            if not uses:
+                continue
+            # (1) adjacent run: T1 = E1; ...; Tn = En; S   with each Ti used exactly once, in S's header, in order
+            j = i + 1
+            run = [(st, tgt, val)]
+            while j < len(blk):
+                nxt = next(((s2, t2, v2) for (i2, s2, t2, v2) in defs_in(blk) if i2 == j), None)
+                if nxt is None:
+                    break
+                run.append(nxt)
+                j += 1
+            if j < len(blk):
+                S = blk[j]
+                hdr = _header_exprs(S)
+                hdr_nodes = [n for h in hdr for n in (walk_local_stmt_(h) if isinstance(h, ast.stmt) else walk_local(h))]
+                ok = bool(hdr)
+                pos = []
+                for (s_, t_, v_) in run:
+                    us = [n for n in own if isinstance(n, ast.Name) and n.id == t_ and isinstance(n.ctx, ast.Load)]
+                    inh = [n for n in hdr_nodes if isinstance(n, ast.Name) and n.id == t_ and isinstance(n.ctx, ast.Load)]
+                    if len(us) != 1 or len(inh) != 1 or us[0] is not inh[0]:
+                        ok = False
+                        break
+                    pos.append(order.get(id(us[0]), -1))
+                if ok and pos == sorted(pos):
+                    # a constructor / call result must not be moved past another call of S evaluated before its use:
+                    # accept only when S evaluates nothing with effects before the first use (receiver chains are reads)
+                    for (s_, t_, v_) in run:
+                        _replace_name(S, t_, v_)
+                        blk.remove(s_)
+                    return True
+            # (2) pure expression, any number of uses: nothing E reads is written and no call runs between def and each use
+            if not _is_pure(val, set(stores) | params):
+                continue
+            attrs, names = _reads(val)
+            d_end = max(order[id(n)] for n in walk_local_stmt_(st))
+            good = True
+            for u in uses:
+                ui = order.get(id(u))
+                if ui is None or ui < d_end:
+                    good = False
+                    break
+                between = [n for n in own if d_end < order[id(n)] < ui]
+                # a use inside a loop that does not contain the definition sees the whole loop body as "between"
+                for anc in _ancestors_within(func, u):
+                    if isinstance(anc, (ast.For, ast.While, ast.AsyncFor)) and not any(x is st for x in ast.walk(anc)):
+                        between += [n for n in walk_local_stmt_(anc)]
+                in_assert = set()
+                for n in between:
+                    if isinstance(n, ast.Assert):
+                        in_assert.update(id(x) for x in ast.walk(n))
+                for n in between:
+                    if isinstance(n, ast.Call) and dotted(n.func) not in _PURE_CALLS and id(n) not in in_assert:
+                        # the call that *contains* the use as receiver/argument is evaluated after the use
+                        if any(x is u for x in ast.walk(n)):
+                            continue
+                        good = False
+                    elif isinstance(n, ast.Attribute) and isinstance(n.ctx, (ast.Store, ast.Del)) and n.attr in attrs:
+                        good = False
+                    elif isinstance(n, ast.Name) and isinstance(n.ctx, (ast.Store, ast.Del)) and n.id in names:
+                        good = False
+                    elif isinstance(n, (ast.Yield, ast.YieldFrom, ast.Await)):
+                        good = False
+                if not good:
+                    break
+            if good:
+                for blk2 in [func]:
+                    _replace_name(func, tgt, val, own_only=True)
+                blk.remove(st)
+                if not blk:
+                    blk.append(ast.copy_location(ast.Pass(), st))
+                return True
+    return False
+
+
+def _replace_name(root, name, expr, own_only=False):
+    class R(ast.NodeTransformer):
+        def visit_FunctionDef(self, node):
+            return node if (own_only and node is not root) else self.generic_visit(node)
+        visit_AsyncFunctionDef = visit_FunctionDef
+
+        def visit_Lambda(self, node):
+            return node if own_only else self.generic_visit(node)
+
+        def visit_Name(self, node):
+            if node.id == name and isinstance(node.ctx, ast.Load):
+                return clone(expr)
+            return node
+    R().visit(root)
+
+
+def _class_functions(cls: ast.ClassDef):
+    """(container list, function) for every def directly owned by the class (through if/try blocks)."""
+    out = []
+
+    def rec(blk):
+        for st in blk:
+            if isinstance(st, (ast.FunctionDef, ast.AsyncFunctionDef)):
+                out.append((blk, st))
+            elif isinstance(st, (ast.If, ast.Try)):
+                rec(st.body)
+                rec(getattr(st, "orelse", []) or [])
+                rec(getattr(st, "finalbody", []) or [])
+                for h in getattr(st, "handlers", []) or []:
+                    rec(h.body)
+    rec(cls.body)
+    return out
+
+
+def norm_class(ctx, rel: str, clsname: str, keep: Iterable[str] = ()) -> ast.ClassDef:
+    """Normalised copy of a class (see the comment block above); cached per ctx.  ``keep``: anchor methods
+    that are never inlined away.  ``result._inlined`` lists the helpers that were dissolved."""
+    cache = ctx.__dict__.setdefault("_norm_cache", {})
+    key = (rel, clsname)
+    if key in cache:
+        return cache[key]
+    orig = ctx.cls(rel, clsname)
+    mod = ctx.mod(rel)
+    cls = clone(orig)
+    keep = set(keep)
+    counter = [0]
+    mod_refs: Dict[str, list] = {}
+    for n in ast.walk(mod.tree):
+        if isinstance(n, ast.Attribute):
+            mod_refs.setdefault(n.attr, []).append(n)
+    for _round in range(4):
+        funcs = _class_functions(cls)
+        helpers = {}
+        for blk, f in funcs:
+            if f.name in keep or not f.name.startswith("_") or (f.name.startswith("__") and f.name.endswith("__")) or f.decorator_list or _is_generator(f) \
+                    or isinstance(f, ast.AsyncFunctionDef):
+                continue
+            if sum(1 for _, g in funcs if g.name == f.name) != 1:
+                continue
+            # only inlinable when every reference in the module is a plain call  self._h(...)
+            refs = mod_refs.get(f.name, [])
+            if not refs or not all(isinstance(getattr(r, "_parent", None), ast.Call) and getattr(r, "_parent").func is r and isinstance(r.value, ast.Name) and r.value.id == "self"
+                                   for r in refs):
+                continue
+            if not all(mod.qualname(r).split(".")[0] == clsname for r in refs):
+                continue
+            if any(_helper_self_recursive(f)):
+                continue
+            if _mentioned_elsewhere(ctx, rel, f.name):
+                continue  # may be overridden / called from another module: not a private detail of this class
+            helpers[f.name] = f
+        any_change = False
+        for blk, f in funcs:
+            hs = {k: v for k, v in helpers.items() if k != f.name}
+            for fn in [f] + [n for n in ast.walk(f) if isinstance(n, (ast.FunctionDef, ast.AsyncFunctionDef)) and n is not f]:
+                nb, ch = _inline_block(fn.body, hs, _assigned_names(fn) | {a.arg for a in fn.args.args}, counter)
+                if ch:
+                    fn.body = nb
+                    any_change = True
+        if not any_change:
+            break
+    # dissolve helpers that are no longer referenced
+    inlined = []
+    for blk, f in _class_functions(cls):
+        if f.name in keep or not f.name.startswith("_") or (f.name.startswith("__") and f.name.endswith("__")):
+            continue
+        refs_in_cls = [n for n in ast.walk(cls) if isinstance(n, ast.Attribute) and n.attr == f.name]
+        refs_in_mod = mod_refs.get(f.name, [])
+        orig_in_cls = [n for n in ast.walk(orig) if isinstance(n, ast.Attribute) and n.attr == f.name]
+        if not refs_in_cls and orig_in_cls and len(refs_in_mod) == len(orig_in_cls):
+            blk.remove(f)
+            if not blk:
+                blk.append(ast.Pass())
+            inlined.append(f.name)
+    for blk, f in _class_functions(cls):
+        for fn in [f] + [n for n in ast.walk(f) if isinstance(n, (ast.FunctionDef, ast.AsyncFunctionDef)) and n is not f]:
+            for _ in range(12):
+                if not _subst_temps(fn):
+                    break
+    ast.fix_missing_locations(cls)
+    set_parents(cls, getattr(orig, "_parent", None))
+    cls._inlined = inlined  # type: ignore[attr-defined]
+    cls._orig = orig  # type: ignore[attr-defined]
+    cache[key] = cls
+    return cls
+
+
+def _mentioned_elsewhere(ctx, rel: str, name: str) -> bool:
+    texts = ctx.__dict__.get("_all_texts")
+    if texts is None:
+        texts = {}
+        for r in ctx.tree.all_modules():
+            try:
+                texts[r] = ctx.tree.text(r)
+            except AnalysisError:
+                pass
+        ctx.__dict__["_all_texts"] = texts
+    import re as _re
+    pat = _re.compile(r"(?<![A-Za-z0-9_])" + _re.escape(name) + r"(?![A-Za-z0-9_])")
+    return any(name in t and pat.search(t) for r, t in texts.items() if r != rel)
+
+
+def _helper_self_recursive(f):
+    for n in ast.walk(f):
+        if isinstance(n, ast.Attribute) and n.attr == f.name:
+            yield n
+
+
+def norm_func(ctx, rel: str, clsname: str, name: str, keep: Iterable[str] = (), which: int = 0):
+    """The normalised version of ``clsname.name`` (Missing stand-in when it vanished)."""
+    cls = norm_class(ctx, rel, clsname, keep)
+    fs = [f for _, f in _class_functions(cls) if f.name == name]
+    if len(fs) > which:
+        ctx.functions.add(f"{rel}:{clsname}.{name}")
+        return fs[which]
+    ctx.errors.append(f"[anchor] anchor vanished: function {rel}:{clsname}.{name}")
+    return Missing(f"{rel}:{clsname}.{name}")
+
+
+def resolve_name_test(func, expr):
+    """A test that is a bare local Name assigned exactly once in ``func`` -> (defining expression, defining
+    statement); otherwise (expr, None)."""
+    if isinstance(expr, ast.Name):
+        defs = [st for st in body_walk(func) if isinstance(st, (ast.Assign, ast.AnnAssign))
+                and any(isinstance(t, ast.Name) and t.id == expr.id for t, v in assign_pairs(st))]
+        stores = [n for n in body_walk(func) if isinstance(n, ast.Name) and n.id == expr.id and isinstance(n.ctx, ast.Store)]
+        if len(defs) == 1 and len(stores) == 1:
+            return next(v for t, v in assign_pairs(defs[0]) if isinstance(t, ast.Name) and t.id == expr.id), defs[0]
+    return expr, None
